@@ -43,7 +43,11 @@ From RB Require Import Base.Val.
 Import ListNotations.
 Open Scope N_scope.
 
-Record path := { p_pid : N; p_src : N; p_tok : N }.
+(* p_mark is a ghost: Source::is_llgr_stale() of the path's source when the change (or RIB
+   state) listing the path was produced.  The code never reads it -- it reads the live flag
+   of the shared Source -- and neither does [process_change]; it lets the contract of the
+   change stream say "the exported form of this path changed" when a source is marked. *)
+Record path := { p_pid : N; p_src : N; p_tok : N; p_mark : bool }.
 
 Record change := { c_net : N; c_id : N; c_bc : bool; c_ac : bool;
                    c_repl : option N; c_paths : list path }.
@@ -154,13 +158,14 @@ Record nbr := {
   n_mirror : list (key * E)          (* the neighbour's Adj-RIB-In: (prefix, path id) -> payload *)
 }.
 
-Record state := { s_rib : rib; s_llgr : list N (* sources with llgr_stale set *); s_nbr : nbr }.
+Record state := { s_rib : rib; s_llgr : list N (* sources with llgr_stale set *);
+                  s_pv : N (* which export policy is installed *); s_nbr : nbr }.
 
 Definition nbr0 : nbr :=
   {| n_reg := false; n_chan := []; n_emap := []; n_buf := []; n_beor := false;
      n_ptx := ptx_empty; n_eor := false; n_mirror := [] |}.
 
-Definition state0 : state := {| s_rib := []; s_llgr := []; s_nbr := nbr0 |}.
+Definition state0 : state := {| s_rib := []; s_llgr := []; s_pv := 0; s_nbr := nbr0 |}.
 
 Inductive label :=
 | RibSet (net : N) (bc ac : bool) (repl : option N) (paths : list path)
@@ -170,11 +175,19 @@ Inductive label :=
 | RibFree (net : N) (emit : bool)
     (* the last entry of the prefix goes: id freed; a change with no paths is emitted iff [emit] *)
 | LlgrFlip (src : N) (b : bool)
-    (* Source::mark_llgr_stale / clear_llgr_stale *)
+    (* Source::mark_llgr_stale / clear_llgr_stale, bare *)
+| LlgrMark (src : N) (rs : list (N * bool * bool * option N * list path))
+    (* Table::restale_llgr, one critical section: the flag is set, the affected destinations
+       are re-sorted and their changes (net, best_changed, any_changed, replaced, ranked list)
+       are emitted *)
 | Deliver      (* handle_prefix_update on the oldest queued change *)
 | Flush        (* flush_tx: drain_messages, bytes reach the neighbour *)
 | Register     (* on_established: initial dump + channel registration, one critical section *)
-| Refresh.     (* do_route_refresh *)
+| Refresh      (* do_route_refresh *)
+| Unregister   (* unregister_peer at session end: the channel is dropped with the session *)
+| PolicyChange (v : N).
+               (* the neighbour's export policy assignment is replaced (takes effect for every
+                  later handle_prefix_update / do_route_refresh / on_established) *)
 
 Section WithPolicy.
 Variable keying_ : keying.
@@ -182,6 +195,9 @@ Variable limited : bool.
 Variable max : N.            (* effective_max (>= 1) *)
 Variable aptx : bool.        (* PendingTx.addpath_tx / GroupedSink.addpath_tx *)
 Variable vis : path -> bool.
+Variable polv : N -> bool -> N -> path -> option E.   (* per installed policy *)
+
+Section OnePolicy.
 Variable pol : bool -> N -> path -> option E.
 
 Definition ap : bool := negb (max =? 1).          (* the add-path branch of process_nlri_change *)
@@ -265,6 +281,15 @@ Definition snapshot (r : rib) : list change :=
                                       c_repl := None; c_paths := l |}
                        end) r.
 
+(* do_route_refresh: an add-path neighbour is walked once per candidate path, that path named
+   as replaced, so that already advertised paths are re-sent *)
+Definition refresh_changes (cs : list change) : list change :=
+  if ap then
+    flat_map (fun c => map (fun q => {| c_net := c_net c; c_id := c_id c; c_bc := true; c_ac := true;
+                                        c_repl := Some (p_pid q); c_paths := c_paths c |})
+                           (c_paths c)) cs
+  else cs.
+
 Definition sink_group (s : sink) : list (key * E) := match s with SGroup g => g | SPtx _ => [] end.
 Definition sink_ptx (s : sink) (d : ptx) : ptx := match s with SPtx p => p | SGroup _ => d end.
 
@@ -272,6 +297,8 @@ Definition sink_ptx (s : sink) (d : ptx) : ptx := match s with SPtx p => p | SGr
 Definition dump (fl : list N) (r : rib) : emap * list (key * E) :=
   let st := fold_left (fun s c => process_change fl c s) (snapshot r) ([], SGroup []) in
   (fst st, sink_group (snd st)).
+
+End OnePolicy.
 
 (* ------------------------------------------------------------ the neighbour's mirror *)
 Definition mirror_reach (es : list (key * E)) (m : list (key * E)) : list (key * E) :=
@@ -299,26 +326,33 @@ Definition push (c : change) (n : nbr) : nbr :=
   else n.
 
 Definition with_nbr (s : state) (n : nbr) : state :=
-  {| s_rib := s_rib s; s_llgr := s_llgr s; s_nbr := n |}.
+  {| s_rib := s_rib s; s_llgr := s_llgr s; s_pv := s_pv s; s_nbr := n |}.
+
+Definition rib_set (s : state) (x : N * bool * bool * option N * list path) : state :=
+  let '(net, bc, ac, repl, paths) := x in
+  let '(r', i) := rset net paths (s_rib s) in
+  {| s_rib := r'; s_llgr := s_llgr s; s_pv := s_pv s;
+     s_nbr := push {| c_net := net; c_id := i; c_bc := bc; c_ac := ac;
+                      c_repl := repl; c_paths := paths |} (s_nbr s) |}.
+
+Definition set_llgr (src : N) (fl : list N) : list N := if memN src fl then fl else src :: fl.
 
 Definition step (s : state) (l : label) : state :=
   let n := s_nbr s in
   match l with
-  | RibSet net bc ac repl paths =>
-      let '(r', i) := rset net paths (s_rib s) in
-      {| s_rib := r'; s_llgr := s_llgr s;
-         s_nbr := push {| c_net := net; c_id := i; c_bc := bc; c_ac := ac;
-                          c_repl := repl; c_paths := paths |} n |}
+  | RibSet net bc ac repl paths => rib_set s (net, bc, ac, repl, paths)
+  | LlgrMark src rs =>
+      fold_left rib_set rs {| s_rib := s_rib s; s_llgr := set_llgr src (s_llgr s); s_pv := s_pv s; s_nbr := n |}
   | RibTouch net =>
       match rfind net (s_rib s) with
       | Some _ => s
-      | None => {| s_rib := fst (rset net [] (s_rib s)); s_llgr := s_llgr s; s_nbr := n |}
+      | None => {| s_rib := fst (rset net [] (s_rib s)); s_llgr := s_llgr s; s_pv := s_pv s; s_nbr := n |}
       end
   | RibFree net emit =>
       match rfind net (s_rib s) with
       | None => s
       | Some d =>
-          {| s_rib := rfree net (s_rib s); s_llgr := s_llgr s;
+          {| s_rib := rfree net (s_rib s); s_llgr := s_llgr s; s_pv := s_pv s;
              s_nbr := if emit
                       then push {| c_net := net; c_id := d_id d; c_bc := true; c_ac := true;
                                    c_repl := None; c_paths := [] |} n
@@ -326,14 +360,14 @@ Definition step (s : state) (l : label) : state :=
       end
   | LlgrFlip src b =>
       {| s_rib := s_rib s;
-         s_llgr := if b then (if memN src (s_llgr s) then s_llgr s else src :: s_llgr s)
+         s_llgr := if b then set_llgr src (s_llgr s)
                    else filter (fun x => negb (x =? src)) (s_llgr s);
-         s_nbr := n |}
+         s_pv := s_pv s; s_nbr := n |}
   | Deliver =>
       match n_chan n with
       | [] => s
       | c :: rest =>
-          let st := process_change (s_llgr s) c (n_emap n, SPtx (n_ptx n)) in
+          let st := process_change (polv (s_pv s)) (s_llgr s) c (n_emap n, SPtx (n_ptx n)) in
           with_nbr s {| n_reg := n_reg n; n_chan := rest; n_emap := fst st; n_buf := n_buf n;
                         n_beor := n_beor n; n_ptx := sink_ptx (snd st) (n_ptx n);
                         n_eor := n_eor n; n_mirror := n_mirror n |}
@@ -345,17 +379,20 @@ Definition step (s : state) (l : label) : state :=
   | Register =>
       (* a (re-)established session: new PendingTx, new ExportMap, new channel, and the
          neighbour's Adj-RIB-In starts empty *)
-      let d := dump (s_llgr s) (s_rib s) in
+      let d := dump (polv (s_pv s)) (s_llgr s) (s_rib s) in
       with_nbr s {| n_reg := true; n_chan := []; n_emap := fst d; n_buf := snd d;
                     n_beor := true; n_ptx := ptx_empty; n_eor := false; n_mirror := [] |}
   | Refresh =>
       if n_reg n then
-        let st := fold_left (fun a c => process_change (s_llgr s) c a) (snapshot (s_rib s))
+        let st := fold_left (fun a c => process_change (polv (s_pv s)) (s_llgr s) c a)
+                            (refresh_changes (snapshot (s_rib s)))
                             (n_emap n, SPtx (n_ptx n)) in
         with_nbr s {| n_reg := true; n_chan := n_chan n; n_emap := fst st; n_buf := n_buf n;
                       n_beor := n_beor n; n_ptx := sink_ptx (snd st) (n_ptx n);
                       n_eor := true; n_mirror := n_mirror n |}
       else s
+  | Unregister => with_nbr s nbr0
+  | PolicyChange v => {| s_rib := s_rib s; s_llgr := s_llgr s; s_pv := v; s_nbr := n |}
   end.
 
 Definition run_from (s : state) (ls : list label) : state := fold_left step ls s.
@@ -367,7 +404,7 @@ End WithE.
 Arguments t_reach {E}. Arguments t_unreach {E}.
 Arguments n_reg {E}. Arguments n_chan {E}. Arguments n_emap {E}. Arguments n_buf {E}.
 Arguments n_beor {E}. Arguments n_ptx {E}. Arguments n_eor {E}. Arguments n_mirror {E}.
-Arguments s_rib {E}. Arguments s_llgr {E}. Arguments s_nbr {E}.
+Arguments s_rib {E}. Arguments s_llgr {E}. Arguments s_pv {E}. Arguments s_nbr {E}.
 
 (* ------------------------------------------------------------ concrete instance and printers *)
 (* Cases instantiate E := (attribute token, LLGR_STALE marker) and
@@ -384,8 +421,13 @@ Definition cvis (g : cfg) (p : path) : bool := negb (memN (p_src p) (g_hidden g)
 Definition cpol (g : cfg) (llgr : bool) (net : N) (p : path) : option CE :=
   if memN (p_tok p) (g_rej g) then None else Some (p_src p, p_tok p, if llgr then 1 else 0).
 
+(* policy 0: the configured one; policy 1: accept everything and tag it (community 3:1,
+   read back as token + 100) *)
+Definition cpolv (g : cfg) (v : N) (llgr : bool) (net : N) (p : path) : option CE :=
+  if v =? 0 then cpol g llgr net p else Some (p_src p, p_tok p + 100, if llgr then 1 else 0).
+
 Definition cstep (g : cfg) : state CE -> label -> state CE :=
-  step CE (g_keying g) (g_limited g) (g_max g) (g_aptx g) (cvis g) (cpol g).
+  step CE (g_keying g) (g_limited g) (g_max g) (g_aptx g) (cvis g) (cpolv g).
 
 Fixpoint lex_leb (a b : list N) : bool :=
   match a, b with
@@ -409,8 +451,8 @@ Definition row_kv (x : key * CE) : list N :=
 Definition row_k (k : key) : list N := [fst k; snd k].
 
 Definition fresh_of (g : cfg) (s : state CE) : list (key * CE) :=
-  mirror_reach CE (snd (dump CE (g_keying g) (g_limited g) (g_max g) (g_aptx g) (cvis g) (cpol g)
-                             (s_llgr s) (s_rib s))) [].
+  mirror_reach CE (snd (dump CE (g_keying g) (g_limited g) (g_max g) (g_aptx g) (cvis g)
+                             (cpolv g (s_pv s)) (s_llgr s) (s_rib s))) [].
 
 Definition pending_empty (n : nbr CE) : bool :=
   match n_buf n, t_reach (n_ptx n), t_unreach (n_ptx n) with
@@ -444,13 +486,26 @@ Definition v_check (g : cfg) (s : state CE) : val :=
       VB (rows_eqb (sort_rows (map row_kv (n_mirror (s_nbr s))))
                    (sort_rows (map row_kv (fresh_of g s))))].
 
-Definition observe (g : cfg) (s : state CE) (l : label) : val :=
+Definition v_set (g : cfg) (s : state CE) (x : N * bool * bool * option N * list path) : val :=
+  let '(net, bc, ac, repl, paths) := x in
+  VL [VN 0; rib_id net (cstep g s (RibSet net bc ac repl paths)); VN net; VB bc; VB ac;
+      VOpt VN repl; VList v_path paths].
+
+Fixpoint v_sets (g : cfg) (s : state CE) (rs : list (N * bool * bool * option N * list path))
+  : list val :=
+  match rs with
+  | [] => []
+  | x :: t => let '(net, bc, ac, repl, paths) := x in
+              v_set g s x :: v_sets g (cstep g s (RibSet net bc ac repl paths)) t
+  end.
+
+Definition observe1 (g : cfg) (s : state CE) (l : label) : val :=
   let s' := cstep g s l in
   let n := s_nbr s in
   let n' := s_nbr s' in
   match l with
-  | RibSet net bc ac repl paths =>
-      VL [VN 0; rib_id net s'; VN net; VB bc; VB ac; VOpt VN repl; VList v_path paths]
+  | RibSet net bc ac repl paths => v_set g s (net, bc, ac, repl, paths)
+  | LlgrMark _ _ => VL [VN 1]
   | RibTouch net => VL [VN 0; VL []]
   | RibFree net emit =>
       if emit then match rfind net (s_rib s) with
@@ -467,12 +522,21 @@ Definition observe (g : cfg) (s : state CE) (l : label) : val :=
                  v_check g s']
   | Register => VL [VN 4]
   | Refresh => VL [VN 5; VB (pending_empty n')]
+  | Unregister => VL [VN 7]
+  | PolicyChange _ => VL [VN 8]
+  end.
+
+Definition observe (g : cfg) (s : state CE) (l : label) : list val :=
+  match l with
+  | LlgrMark src rs =>
+      VL [VN 1] :: v_sets g {| s_rib := s_rib s; s_llgr := set_llgr src (s_llgr s); s_pv := s_pv s; s_nbr := s_nbr s |} rs
+  | _ => [observe1 g s l]
   end.
 
 Fixpoint observe_from (g : cfg) (s : state CE) (ls : list label) : list val :=
   match ls with
   | [] => [VL [VN 6; VB (pending_empty (s_nbr s)); v_check g s]]
-  | l :: t => observe g s l :: observe_from g (cstep g s l) t
+  | l :: t => observe g s l ++ observe_from g (cstep g s l) t
   end.
 
 Definition run_case (g : cfg) (ls : list label) : val := VL (observe_from g (state0 CE) ls).
